@@ -161,7 +161,20 @@ fn first_cfgs(n: usize) -> Vec<AnyCfg> {
 
 fn second_cfgs(n: usize) -> Vec<AnyCfg> {
     let mut v = vec![];
-    for (kind, mutable) in [(Kind::ForEach, true), (Kind::TryForEach, true), (Kind::Fold, true), (Kind::ForEach, false), (Kind::TryFold, false), (Kind::Control, true)] {
+    // all 10 `_with` methods: a scratch buffer kept by one method family only shows when the
+    // second run uses that family
+    for (kind, mutable) in [
+        (Kind::ForEach, true),
+        (Kind::TryForEach, true),
+        (Kind::Fold, true),
+        (Kind::ForEach, false),
+        (Kind::TryFold, false),
+        (Kind::Control, true),
+        (Kind::TryFold, true),
+        (Kind::Fold, false),
+        (Kind::TryForEach, false),
+        (Kind::Control, false),
+    ] {
         let mut c = RunCfg::plain(Api { kind, mutable, with: true }, n);
         if kind == Kind::TryFold {
             c.fail = (0..n).map(|i| i == 1).collect();
